@@ -57,3 +57,9 @@ Proof.
   intros k _. apply G. exact H0.
 Qed.
 Print Assumptions C01_partial.
+
+(* the log geometry used by the byte-level recovery model (WalDisk.recover_log) is go-journal's *)
+From V Require Proofs.ConstsConform.
+Theorem C01_log_constants_conform : V.Proofs.ConstsConform.log_constants_conform.
+Proof. exact V.Proofs.ConstsConform.log_constants_ok. Qed.
+Print Assumptions C01_log_constants_conform.
